@@ -164,7 +164,8 @@ Print Assumptions C15_asphere_scale_roundtrip.
 Theorem C15_scaled_roundtrip :
   forall (k : hk) (j : Z) (v : R),
        (0 <= j)%Z ->
-       scale_of k j (inverse_scale_of k j v) = v /\ inverse_scale_of k j (scale_of k j v) = v.
+       scale_of (O:=ROps) k j (inverse_scale_of (O:=ROps) k j v) = v /\
+       inverse_scale_of (O:=ROps) k j (scale_of (O:=ROps) k j v) = v.
 Proof. exact scaled_roundtrip. Qed.
 Print Assumptions C15_scaled_roundtrip.
 
